@@ -207,7 +207,10 @@ def check(case, ctx):
                     ctx.le("a normalised object used as right operand multiplies like its unit quaternion", rel(val, uab2, na), REL, {"via": nm, "got": val, "ref": uab2}, route=r)
     # scalar-last twin
     aS = np.r_[aa[1:], aa[0]]
-    out = call(lambda: Q(aS.copy(), versor=versor, order="S"))
+    # (every few cases the scalar-last object is one the caller derived from the constructed one - a copy, a view, a full slice: the same quaternion)
+    import copy as _copy
+    derive = [None, None, lambda X: X.copy(), _copy.copy, _copy.deepcopy, lambda X: X.view(), lambda X: X[:]][int(abs(float(aa[0])) * 1e6) % 7]
+    out = call(lambda: Q(aS.copy(), versor=versor, order="S") if derive is None else derive(Q(aS.copy(), versor=versor, order="S")))
     if ctx.returned(out, route="Quaternion(order=S)"):
         AS = out.value
         r = "Quaternion(order=S)"
@@ -250,6 +253,11 @@ def check(case, ctx):
     if ctx.returned(out, route="QuaternionArray(order=S)"):
         S, H = out.value
         r = "QuaternionArray(order=S)"
+        if derive is not None:
+            dv = call(lambda: derive(S))
+            if not ctx.returned(dv, clause="no-exception[copy / view / slice of the array object]", route=r):
+                return
+            S = dv.value
         obs = call(lambda: [np.array(x, float) for x in (S.w, H.w, S.x, H.x, S.y, H.y, S.z, H.z, S.v, H.v, S.conjugate(), H.conjugate())])
         if ctx.returned(obs, route=r):
             w = obs.value
